@@ -45,6 +45,7 @@ type JV struct {
 	SymI *smt.Term
 	SymS StrV
 	Name string
+	F32  bool // the number is representable as a float32 (documents for `format: float`)
 	id   int
 }
 
@@ -528,6 +529,12 @@ func (p *Path) jsonEncode(v Value, t types.Type, site ssa.Instruction) (*JV, Val
 		case BoolV:
 			return &JV{Kind: JBool, B: x.T}, nil
 		case FloatV:
+			if x.Prov != nil && x.Prov.Fn == "itof" {
+				return &JV{Kind: JNum, IsInt: true, I: x.Prov.Args[0].(IntV).T}, nil
+			}
+			if x.Conc && x.F == float64(int64(x.F)) && x.F > -1e15 && x.F < 1e15 {
+				return &JV{Kind: JNum, IsInt: true, I: smt.Int(int64(x.F))}, nil
+			}
 			return &JV{Kind: JNum, F: x}, nil
 		}
 	case *types.Slice:
@@ -748,9 +755,13 @@ func symAsKind(j *JV, k int) *JV {
 	case 1:
 		return &JV{Kind: JBool, B: j.SymB}
 	case 2:
-		return &JV{Kind: JNum, IsInt: true, I: j.SymI}
+		return &JV{Kind: JNum, IsInt: true, I: j.SymI, F32: j.F32}
 	case 3:
-		return &JV{Kind: JNum, F: FloatV{Tok: j.SymI, Prov: &Prov{Fn: "symfrac"}}}
+		fb := 0
+		if j.F32 {
+			fb = 32
+		}
+		return &JV{Kind: JNum, F: FloatV{Tok: j.SymI, Bits: fb, Prov: &Prov{Fn: "symfrac"}}, F32: j.F32}
 	case 4:
 		return &JV{Kind: JStr, S: j.SymS}
 	case 5:
@@ -804,7 +815,34 @@ func (p *Path) jsonDecode(j *JV, ptr PtrV, t types.Type, site ssa.Instruction) V
 		}
 		return p.jsonDecode(j, cur, u.Elem(), site)
 	case *types.Basic:
-		j = p.resolveSym(j)
+		if j.Kind == JSym {
+			// fork only on what this target distinguishes: the fitting kind(s), null, anything else
+			want := []int{}
+			switch {
+			case u.Info()&types.IsString != 0:
+				want = []int{4}
+			case u.Info()&types.IsBoolean != 0:
+				want = []int{1}
+			case u.Info()&types.IsInteger != 0:
+				want = []int{2}
+			case u.Info()&types.IsFloat != 0:
+				want = []int{2, 3}
+			}
+			resolved := false
+			for _, k := range want {
+				if p.branch(smt.Eq(j.K, smt.Int(int64(k)))) {
+					j = symAsKind(j, k)
+					resolved = true
+					break
+				}
+			}
+			if !resolved {
+				if p.branch(smt.Eq(j.K, smt.Int(0))) {
+					return nil
+				}
+				return p.jsonTypeErr("value of another JSON type", t)
+			}
+		}
 		if j.Kind == JNull {
 			return nil
 		}
@@ -849,10 +887,13 @@ func (p *Path) jsonDecode(j *JV, ptr PtrV, t types.Type, site ssa.Instruction) V
 					fv = FloatV{Conc: true, F: float64(c)}
 				} else {
 					p.declareFun("f_itof", []smt.Sort{smt.SInt}, smt.SInt)
-					fv = FloatV{Tok: smt.App("f_itof", smt.SInt, j.I)}
+					fv = FloatV{Tok: smt.App("f_itof", smt.SInt, j.I), Prov: &Prov{Fn: "itof", Args: []Value{IntV{T: j.I}}}}
 				}
 			} else {
 				fv = j.F
+			}
+			if j.F32 {
+				fv.Bits = 32
 			}
 			if u.Kind() == types.Float32 && !fv.Conc {
 				fv = p.narrow32(fv)
@@ -968,9 +1009,27 @@ func (p *Path) jsonToAny(j *JV) Value {
 				return IfaceV{T: basic(types.Float64), V: FloatV{Conc: true, F: float64(c)}}
 			}
 			p.declareFun("f_itof", []smt.Sort{smt.SInt}, smt.SInt)
-			return IfaceV{T: basic(types.Float64), V: FloatV{Tok: smt.App("f_itof", smt.SInt, j.I)}}
+			return IfaceV{T: basic(types.Float64), V: FloatV{Tok: smt.App("f_itof", smt.SInt, j.I), Prov: &Prov{Fn: "itof", Args: []Value{IntV{T: j.I}}}}}
 		}
 		return IfaceV{T: basic(types.Float64), V: j.F}
+	}
+	anyT := types.NewInterfaceType(nil, nil)
+	switch j.Kind {
+	case JArr:
+		es := make([]Value, len(j.Elems))
+		for i, e := range j.Elems {
+			es[i] = p.jsonToAny(p.resolveSym(e))
+		}
+		o := p.newObj(nil, ArrayV{E: es})
+		return IfaceV{T: types.NewSlice(anyT), V: SliceV{Arr: o, Len: len(es), Cap: len(es)}}
+	case JObj:
+		p.nobj++
+		m := &MapObj{ID: p.nobj}
+		mv := MapV{M: m}
+		for i, k := range j.Keys {
+			p.mapStore(mv, k, p.jsonToAny(p.resolveSym(j.Vals[i])))
+		}
+		return IfaceV{T: types.NewMap(types.Typ[types.String], anyT), V: mv}
 	}
 	p.unsupported("json decode of %s into interface{}", jkindName(j))
 	return nil
